@@ -24,5 +24,5 @@ for id in $ids; do
     echo "NOAPPLY $id ($prop): patch.diff does not apply to HEAD"
   fi
   git -C /repo worktree remove --force "$ev"
-  rm -rf /dev/shm/verif-bin-*
+  rm -rf "/dev/shm/verif-bin-$(python3 -c "import hashlib,sys;print(hashlib.sha256(sys.argv[1].encode()).hexdigest()[:12])" "$ev")" "/dev/shm/verif-instr-$(python3 -c "import hashlib,sys;print(hashlib.sha256(sys.argv[1].encode()).hexdigest()[:12])" "$ev")" "/dev/shm/verif-instr-$(python3 -c "import hashlib,sys;print(hashlib.sha256(sys.argv[1].encode()).hexdigest()[:12])" "$ev").lock"
 done
